@@ -57,13 +57,19 @@ Inductive pcT :=
 | PAfterBody | PWaitFin | PE400 | PEnd (ret : bool) | PFail | PQuiet
 | PExited | PErr (why : string).
 
-Record stream := mkS { rmax : N; buf : list N; q : list item; closed : bool; ls : lstate; scb : bool }.
-Definition set_rmax (v : N) (s : stream) : stream := mkS v (buf s) (q s) (closed s) (ls s) (scb s).
-Definition set_buf (v : list N) (s : stream) : stream := mkS (rmax s) v (q s) (closed s) (ls s) (scb s).
-Definition set_q (v : list item) (s : stream) : stream := mkS (rmax s) (buf s) v (closed s) (ls s) (scb s).
-Definition set_closed (v : bool) (s : stream) : stream := mkS (rmax s) (buf s) (q s) v (ls s) (scb s).
-Definition set_ls (v : lstate) (s : stream) : stream := mkS (rmax s) (buf s) (q s) (closed s) v (scb s).
-Definition set_scb (v : bool) (s : stream) : stream := mkS (rmax s) (buf s) (q s) (closed s) (ls s) v.
+(* [wire], [eaten], [mark] are ghost fields (never read by the machine): every byte the peer delivered to the
+   transport, every byte returned by completed reads, and the length of [eaten] when the current header block
+   had been read (= offset of the current request body in [wire]). *)
+Record stream := mkS { rmax : N; buf : list N; q : list item; closed : bool; ls : lstate; scb : bool; wire : list N; eaten : list N; mark : nat }.
+Definition set_rmax (v : N) (s : stream) : stream := mkS v (buf s) (q s) (closed s) (ls s) (scb s) (wire s) (eaten s) (mark s).
+Definition set_buf (v : list N) (s : stream) : stream := mkS (rmax s) v (q s) (closed s) (ls s) (scb s) (wire s) (eaten s) (mark s).
+Definition set_q (v : list item) (s : stream) : stream := mkS (rmax s) (buf s) v (closed s) (ls s) (scb s) (wire s) (eaten s) (mark s).
+Definition set_closed (v : bool) (s : stream) : stream := mkS (rmax s) (buf s) (q s) v (ls s) (scb s) (wire s) (eaten s) (mark s).
+Definition set_ls (v : lstate) (s : stream) : stream := mkS (rmax s) (buf s) (q s) (closed s) v (scb s) (wire s) (eaten s) (mark s).
+Definition set_scb (v : bool) (s : stream) : stream := mkS (rmax s) (buf s) (q s) (closed s) (ls s) v (wire s) (eaten s) (mark s).
+Definition set_wire (v : list N) (s : stream) : stream := mkS (rmax s) (buf s) (q s) (closed s) (ls s) (scb s) v (eaten s) (mark s).
+Definition set_eaten (v : list N) (s : stream) : stream := mkS (rmax s) (buf s) (q s) (closed s) (ls s) (scb s) (wire s) v (mark s).
+Definition set_mark (v : nat) (s : stream) : stream := mkS (rmax s) (buf s) (q s) (closed s) (ls s) (scb s) (wire s) (eaten s) v.
 
 Record st := mkSt { sm : stream; wf : bool; rf : bool; ffd : bool; dof : bool; ccb : bool; detached : bool; ndc : bool; responded : bool; pend : pendk; idx : nat; next : nat; cur_exp : bool; cur_fr : framing; trace : list tev; sent : list N; exited : bool; scq : bool; pc : pcT }.
 Definition set_sm (v : stream) (s : st) : st := mkSt v (wf s) (rf s) (ffd s) (dof s) (ccb s) (detached s) (ndc s) (responded s) (pend s) (idx s) (next s) (cur_exp s) (cur_fr s) (trace s) (sent s) (exited s) (scq s) (pc s).
@@ -193,7 +199,7 @@ Definition note_max (sp : rspec) (s : stream) : stream :=
 
 (* _read_from_buffer + _finish_read *)
 Definition take_pos (p : nat) (s : stream) : rres * stream :=
-  (RDone (firstn p (buf s)), madd (set_buf (skipn p (buf s)) s)).
+  (RDone (firstn p (buf s)), madd (set_eaten (eaten s ++ firstn p (buf s)) (set_buf (skipn p (buf s)) s))).
 
 Definition after_fill (sp : rspec) (s : stream) : rres * stream :=
   match find_pos (buf s) (Some sp) with
@@ -367,6 +373,7 @@ Definition step (s : st) : st :=
                     (exited s) (scq s) PStart in
       do_read s WHdr (RRegex (c_maxh c))
   | PHdr d =>
+      let s := on_sm (fun m => set_mark (length (eaten m)) m) s in
       match parse d with
       | None => set_pc (PErr "NoFacts") s
       | Some FBad => set_pc PE400 s
@@ -452,7 +459,8 @@ Definition stream_closed_event (s : st) : st :=
       else s
   end.
 
-Definition push_item (i : item) (s : st) : st := on_sm (fun m => set_q (q m ++ [i]) m) s.
+Definition push_item (i : item) (s : st) : st :=
+  on_sm (fun m => set_wire (wire m ++ match i with Seg b => b | Eof => [] end) (set_q (q m ++ [i]) m)) s.
 
 (* the peer's bytes / FIN reach the transport; the IOLoop reports READ if the stream listens for it *)
 Definition deliver (i : item) (s0 : st) : st :=
@@ -530,7 +538,7 @@ Definition apply_event (e : event) (s : st) : st :=
            end in
   run (run_fuel s) s.
 
-Definition init_stream : stream := mkS 0 [] [] false LNone false.
+Definition init_stream : stream := mkS 0 [] [] false LNone false [] [] 0.
 Definition init_st : st :=
   mkSt init_stream false false false false false false false false PdNone 0 0 false BNone [] [] false false PStart.
 
